@@ -190,6 +190,9 @@ func Shrink(raw json.RawMessage) []json.RawMessage {
 			emit(func(c *Scenario) bool { c.Regs = append(c.Regs[:ri], c.Regs[ri+1:]...); return true })
 		}
 	}
+	if sc.PipeBreak != 0 {
+		emit(func(c *Scenario) bool { c.PipeBreak = 0; return true })
+	}
 	if sc.OtherPack {
 		emit(func(c *Scenario) bool { c.OtherPack = false; return true })
 	}
